@@ -136,6 +136,49 @@ def Valid (sem : Sem H Op) : PState H → List (Req Op) → Prop
   | _, [] => True
   | P, r :: rs => P.srv.hosted r.i = true ∧ Valid sem (proxyStep sem P r).1 rs
 
+/-! ## several clients at once
+
+Each client (process or thread) has its own connection and its own serving thread in the server
+(`accept_connection` → `serve_client`); a client blocks in `conn.recv()` until its reply arrives,
+so there is at most one outstanding request per connection.  Which serving thread runs its method
+next is an action label (`exec c`); `hist`/`execOuts`/`got` are history variables. -/
+
+structure CState (H Op : Type) where
+  srv : Server H
+  pending : Nat → Option (Nat × Op)     -- request of client `c` sent, method not yet run
+  reply : Nat → Option Outcome          -- method run, reply not yet read by client `c`
+  hist : List (Req Op)                  -- ghost: requests in the order their methods ran
+  execOuts : List Outcome               -- ghost: their outcomes, same order
+  got : List (Nat × Outcome)            -- ghost: (client, outcome) in the order replies were read
+
+inductive CAct (Op : Type) where
+  | send (c i : Nat) (op : Op)
+  | exec (c : Nat)
+  | recv (c : Nat)
+
+def cinit (S : Server H) : CState H Op :=
+  { srv := S, pending := fun _ => none, reply := fun _ => none, hist := [], execOuts := [], got := [] }
+
+def cstep (sem : Sem H Op) (s : CState H Op) : CAct Op → Option (CState H Op)
+  | .send c i op =>
+    if s.pending c = none ∧ s.reply c = none then
+      some { s with pending := fun d => if d = c then some (i, op) else s.pending d }
+    else none
+  | .exec c =>
+    match s.pending c with
+    | some (i, op) =>
+      if s.reply c = none then
+        let (S', m) := serverCall sem s.srv i op
+        some { s with srv := S', pending := fun d => if d = c then none else s.pending d
+                      reply := fun d => if d = c then some (clientRecv m) else s.reply d
+                      hist := s.hist ++ [⟨c, i, op⟩], execOuts := s.execOuts ++ [clientRecv m] }
+      else none
+    | none => none
+  | .recv c =>
+    match s.reply c with
+    | some o => some { s with reply := fun d => if d = c then none else s.reply d, got := s.got ++ [(c, o)] }
+    | none => none
+
 /-! ## concrete semantics of the classes used by the correspondence check -/
 
 inductive Obj where
